@@ -48,6 +48,18 @@ def run (t : Tier) : Emit Unit := do
       emit "C13" { op := "writePSI", args := [("psi", psi.toJson)], model := showWrite (writePSIData psi),
                    spec := some (showWrite (.ok (Spec.unitEncode 0 [bs] 0))), tag := "write-PMT-max-descriptor" }
       emit "C13" (parseCase (Spec.unitEncode 0 [bs] 0) (some psi) "parse-PMT-max-descriptor")
+  -- (1c) the writer with several PAT / PMT sections in one unit: every section carries its own CRC
+  for _ in [0:10 * t.scale] do
+    let n ← liftGen (randRange 2 4)
+    let mut ss : List PSISection := []
+    let mut bss : List Bytes := []
+    for _ in [0:n] do
+      let k ← liftGen (randBelow 2)
+      let (s, bs) ← liftGen (genSectionOfKind k false)
+      ss := ss ++ [s]; bss := bss ++ [bs]
+    let psi : PSIData := { pointerField := 0, sections := ss }
+    emit "C13" { op := "writePSI", args := [("psi", psi.toJson)], model := showWrite (writePSIData psi),
+                 spec := some (showWrite (.ok (Spec.unitEncode 0 bss 0))), tag := "write-several-sections" }
   -- (2) several sections per unit (mixed kinds)
   for _ in [0:100 * t.scale] do
     let n ← liftGen (randRange 2 5)
